@@ -581,6 +581,13 @@ func instrBeforeOrReach(a, b ssa.Instruction) bool {
 
 // checkSelection: Pick/Omit/Extend touch exactly the keys their arguments name.
 func (P *Prog) checkSelection(r *Result) {
+	var schemaMapT types.Type
+	if f := structField(P.roles.KindByName["StructSchema"], "schema"); f != nil {
+		schemaMapT = f.Type()
+	}
+	isSchemaMap := func(t types.Type) bool {
+		return schemaMapT != nil && types.Identical(t.Underlying(), schemaMapT.Underlying())
+	}
 	for _, name := range []string{"Pick", "Omit", "Extend"} {
 		fn := P.fn("(*zog.StructSchema)." + name)
 		if fn == nil {
@@ -612,82 +619,117 @@ func (P *Prog) checkSelection(r *Result) {
 		}
 		var bad []string
 		nKeyOps := 0
-		copies := []ssa.Instruction{}
-		copySrcRecv, copySrcArg := false, false
-		eachInstr(fn, func(b *ssa.BasicBlock, _ int, in ssa.Instruction) {
+		// decision paths of the method with its helpers entered (cloneWithOwnFields ...): events are
+		// the operations on a field map, each classified under the substitution of its call chain
+		keyOps := map[ssa.Instruction]bool{}
+		spec := &pathSpec{name: "selection", inlineAll: true}
+		spec.cond = func(iff *ssa.If) (string, string, string) { return "", "", "" }
+		spec.keep = func(f *ssa.Function) bool { return !strings.HasPrefix(funcPkgPath(f), "github.com/Oudwins/zog") }
+		spec.events = func(in ssa.Instruction) []pathItem {
 			ci := callOf(in)
 			switch x := in.(type) {
 			case *ssa.MapUpdate:
-				nKeyOps++
-				if !fromArg(x.Key) {
-					bad = append(bad, "a key not named by the arguments is written at "+P.ipos(in))
+				if !isSchemaMap(x.Map.Type()) {
+					return nil
 				}
-				// value must be v.schema[sameKey]
+				var probs []string
+				if !fromArg(x.Key) {
+					probs = append(probs, "a key not named by the arguments is written at "+P.ipos(in))
+				}
 				lk, ok := cv(x.Value).(*ssa.Lookup)
 				if !ok || !fromRecvSchema(lk.X) || cv(lk.Index) != cv(x.Key) {
-					bad = append(bad, "the value stored for a picked key is not the receiver's schema for that same key ("+P.ipos(in)+")")
+					probs = append(probs, "the value stored for a picked key is not the receiver's schema for that same key ("+P.ipos(in)+")")
 				}
-				if !P.boolMapGuardOK(fn, b, x.Key) {
-					bad = append(bad, "a key of a map[string]bool argument is used without testing its boolean value ("+P.ipos(in)+")")
+				if !P.boolMapGuardOK(in.Parent(), in.Block(), x.Key) {
+					probs = append(probs, "a key of a map[string]bool argument is used without testing its boolean value ("+P.ipos(in)+")")
 				}
+				return []pathItem{{kind: "PUT", val: strings.Join(probs, "; "), in: in}}
 			default:
 				if ci == nil {
-					return
+					return nil
 				}
-				if ci.builtin == "delete" {
-					nKeyOps++
+				if ci.builtin == "delete" && isSchemaMap(ci.instr.Common().Args[0].Type()) {
+					var probs []string
 					if !fromArg(ci.instr.Common().Args[1]) {
-						bad = append(bad, "a key not named by the arguments is deleted at "+P.ipos(in))
+						probs = append(probs, "a key not named by the arguments is deleted at "+P.ipos(in))
 					}
-					if !P.boolMapGuardOK(fn, b, ci.instr.Common().Args[1]) {
-						bad = append(bad, "a key of a map[string]bool argument is used without testing its boolean value ("+P.ipos(in)+")")
+					if !P.boolMapGuardOK(in.Parent(), in.Block(), ci.instr.Common().Args[1]) {
+						probs = append(probs, "a key of a map[string]bool argument is used without testing its boolean value ("+P.ipos(in)+")")
 					}
-					for _, cp := range copies {
-						_ = cp
-					}
+					return []pathItem{{kind: "DELETE", val: strings.Join(probs, "; "), in: in}}
 				}
-				if ci.static != nil && originName(ci.static) == "maps.Copy" {
-					copies = append(copies, in)
+				if ci.static != nil && originName(ci.static) == "maps.Copy" && isSchemaMap(ci.instr.Common().Args[0].Type()) {
 					src := ci.instr.Common().Args[1]
+					v := "other"
 					if fromRecvSchema(src) {
-						copySrcRecv = true
+						v = "recv"
 					} else if fromArg(src) {
-						copySrcArg = true
-						if !copySrcRecv {
-							bad = append(bad, "the argument's fields are copied before the receiver's (receiver would override) at "+P.ipos(in))
+						v = "arg"
+					}
+					return []pathItem{{kind: "COPY", val: v, in: in}}
+				}
+			}
+			return nil
+		}
+		res := P.enumPathsSpec(fn, nil, spec)
+		if res.capHit {
+			r.undecided("C16/selection", name, P.pos(fn.Pos()), "too many paths to enumerate")
+			continue
+		}
+		for _, p := range res.paths {
+			if p.end == "PANIC" {
+				continue
+			}
+			recvCopied, argCopied := false, false
+			for _, it := range p.items {
+				switch it.kind {
+				case "PUT", "DELETE":
+					keyOps[it.in] = true
+					if it.val != "" {
+						bad = append(bad, it.val)
+					}
+					if it.kind == "DELETE" && name == "Omit" && !recvCopied {
+						bad = append(bad, "a key is deleted before the receiver's fields are copied in ("+P.ipos(it.in)+")")
+					}
+				case "COPY":
+					switch it.val {
+					case "recv":
+						recvCopied = true
+					case "arg":
+						argCopied = true
+						if !recvCopied {
+							bad = append(bad, "the argument's fields are copied before the receiver's (receiver would override) at "+P.ipos(it.in))
 						}
 					}
 				}
 			}
-		})
+			if p.end != "RETURN" {
+				continue
+			}
+			switch name {
+			case "Pick":
+				if recvCopied {
+					bad = append(bad, "Pick copies all of the receiver's fields")
+				}
+			case "Omit":
+				if !recvCopied {
+					bad = append(bad, "Omit does not start from a copy of all the receiver's fields")
+				}
+			case "Extend":
+				if !recvCopied || !argCopied {
+					bad = append(bad, "Extend does not copy both the receiver's fields and the given fields")
+				}
+			}
+		}
+		nKeyOps = len(keyOps)
 		switch name {
 		case "Pick":
 			if nKeyOps == 0 {
 				bad = append(bad, "no key is ever selected")
 			}
-			if copySrcRecv {
-				bad = append(bad, "Pick copies all of the receiver's fields")
-			}
 		case "Omit":
-			if !copySrcRecv {
-				bad = append(bad, "Omit does not start from a copy of all the receiver's fields")
-			}
 			if nKeyOps == 0 {
 				bad = append(bad, "no key is ever removed")
-			}
-			// deletes must come after the copy
-			eachInstr(fn, func(_ *ssa.BasicBlock, _ int, in ssa.Instruction) {
-				if ci := callOf(in); ci != nil && ci.builtin == "delete" {
-					for _, cp := range copies {
-						if !instrBeforeOrReach(cp, in) {
-							bad = append(bad, "a key is deleted before the receiver's fields are copied in ("+P.ipos(in)+")")
-						}
-					}
-				}
-			})
-		case "Extend":
-			if !copySrcRecv || !copySrcArg {
-				bad = append(bad, "Extend does not copy both the receiver's fields and the given fields")
 			}
 		}
 		if len(bad) > 0 {
